@@ -159,7 +159,8 @@ def traverse(prs, group: str, stats: dict, limit: int = 4000, only: set | None =
 NAV = {"slides", "slide_layouts", "slide_masters", "shapes", "placeholders", "text_frame", "paragraphs", "runs", "table", "rows", "columns",
        "cells", "chart", "plots", "series", "categories", "slide_layout", "slide_master", "has_text_frame", "has_table", "has_chart",
        "notes_slide", "has_notes_slide", "image", "font", "core_properties", "points", "value_axis", "category_axis", "legend"}
-GUARDED = {"notes_slide": "has_notes_slide", "chart_title": "has_title", "axis_title": "has_title", "legend": "has_legend"}
+GUARDED = {"notes_slide": "has_notes_slide", "chart_title": "has_title", "axis_title": "has_title", "legend": "has_legend",
+           "text_frame": "has_text_frame"}     # (a title's text frame: read when its own predicate says it is there)
 # NAV entries that are documented as creating are still excluded by `accessors` (e.g. notes_slide); has_* guards keep text_frame/chart/table safe
 
 
@@ -463,6 +464,23 @@ def foreign_charts_deck(outdir: str) -> str:
                                       '<c:crossAx val="%s"/></c:serAx>' % (C, first))
             last_ax = [x for x in pa if etree.QName(x).localname in ("catAx", "valAx", "dateAx")][-1]
             last_ax.addnext(ser_ax)
+        # titles LINKED to a worksheet cell (c:tx/c:strRef: what PowerPoint / Excel write for a title given as a formula; the library
+        # itself writes c:rich only): the chart title of every chart, the value-axis title of the first
+        LINK = ('<c:title xmlns:c="%s"><c:tx><c:strRef><c:f>Sheet1!$B$1</c:f><c:strCache><c:ptCount val="1"/><c:pt idx="0"><c:v>s1</c:v></c:pt>'
+                '</c:strCache></c:strRef></c:tx><c:overlay val="0"/></c:title>' % C)
+        chart_el = root.find(q("chart"))
+        for old_t in chart_el.findall(q("title")):
+            chart_el.remove(old_t)
+        chart_el.insert(0, etree.fromstring(LINK))
+        atd = chart_el.find(q("autoTitleDeleted"))
+        if atd is not None:
+            atd.set("val", "0")
+        if k == 1:
+            va = next(root.iter(q("valAx")))
+            for old_t in va.findall(q("title")):
+                va.remove(old_t)
+            after = [x for x in va if etree.QName(x).localname in ("axPos", "majorGridlines", "minorGridlines")][-1]
+            after.addnext(etree.fromstring(LINK))
         errs = sorted(set(xsd.errors(etree.fromstring(etree.tostring(root)))) - before)
         if errs:
             raise RuntimeError("generated %s is not schema-valid: %s" % (new, errs))
